@@ -123,17 +123,91 @@ theorem txn_single (s : State) (i : Nat) (op : TOp) :
   | ok x => obtain ⟨w, rs⟩ := x; simp [txn, txnLoop, h]
   | error e => simp [txn, txnLoop, h]
 
+/-! ### the delete cascades only ever remove rows of the tables they are meant to touch -/
+
+theorem tdel_absent {κ α : Type} [DecidableEq κ] (t : Tab κ α) (k : κ) (h : tget t k = none) : tdel t k = t := by
+  induction t with
+  | nil => rfl
+  | cons p r ih =>
+    obtain ⟨pk, pv⟩ := p
+    by_cases hp : pk = k
+    · simp [tget, hp] at h
+    · simp only [tget, hp, if_false] at h
+      have := ih h
+      simp only [tdel] at this ⊢
+      rw [List.filter_cons]
+      simp only [ne_eq, hp, not_false_eq_true, decide_true, if_true]
+      rw [this]
+
+theorem mem_foldl_tdel {κ α β : Type} [DecidableEq κ] (f : β → κ) (l : List β) (t : Tab κ α) (p : κ × Ver α)
+    (h : p ∈ l.foldl (fun t x => tdel t (f x)) t) : p ∈ t ∧ ∀ x ∈ l, p.1 ≠ f x := by
+  induction l generalizing t with
+  | nil => exact ⟨h, by simp⟩
+  | cons k ks ih =>
+    have := ih (tdel t (f k)) h
+    simp only [tdel, List.mem_filter, ne_eq, decide_not, Bool.not_eq_eq_eq_not, Bool.not_true,
+      decide_eq_false_iff_not] at this
+    refine ⟨this.1.1, ?_⟩
+    intro x hx
+    cases hx with
+    | head => exact this.1.2
+    | tail _ hx => exact this.2 x hx
+
+theorem chkDelete_nodes (s : State) (i : Nat) (n c : String) : (chkDelete s i n c).nodes = s.nodes := by
+  cases h : tget s.chks (lc n, c) <;> simp [chkDelete, h]
+theorem chkDelete_svcs (s : State) (i : Nat) (n c : String) : (chkDelete s i n c).svcs = s.svcs := by
+  cases h : tget s.chks (lc n, c) <;> simp [chkDelete, h]
+theorem chkDelete_chks (s : State) (i : Nat) (n c : String) : (chkDelete s i n c).chks = tdel s.chks (lc n, c) := by
+  cases h : tget s.chks (lc n, c) with
+  | none => simp [chkDelete, h, tdel_absent _ _ h]
+  | some e => simp [chkDelete, h]
+
+theorem foldl_chkDelete {β : Type} (f : β → String) (l : List β) (s : State) (i : Nat) (n : String) :
+    (l.foldl (fun w x => chkDelete w i n (f x)) s).nodes = s.nodes ∧
+    (l.foldl (fun w x => chkDelete w i n (f x)) s).svcs = s.svcs ∧
+    (l.foldl (fun w x => chkDelete w i n (f x)) s).chks = l.foldl (fun t x => tdel t (lc n, f x)) s.chks := by
+  induction l generalizing s with
+  | nil => simp
+  | cons c l ih =>
+    have := ih (chkDelete s i n (f c))
+    simp only [List.foldl_cons, chkDelete_nodes, chkDelete_svcs, chkDelete_chks] at this ⊢
+    exact this
+
+theorem svcDelete_nodes (s : State) (i : Nat) (n id : String) : (svcDelete s i n id).nodes = s.nodes := by
+  cases h : tget s.svcs (lc n, id) with
+  | none => simp [svcDelete, h]
+  | some e =>
+    simp only [svcDelete, h]
+    split <;> simp [List.foldl_map, (foldl_chkDelete _ _ s i n).1]
+
+theorem svcDelete_svcs (s : State) (i : Nat) (n id : String) : (svcDelete s i n id).svcs = tdel s.svcs (lc n, id) := by
+  cases h : tget s.svcs (lc n, id) with
+  | none => simp [svcDelete, h, tdel_absent _ _ h]
+  | some e =>
+    simp only [svcDelete, h]
+    split <;> simp [List.foldl_map, (foldl_chkDelete _ _ s i n).2.1]
+
+theorem foldl_svcDelete {β : Type} (f : β → String) (l : List β) (s : State) (i : Nat) (n : String) :
+    (l.foldl (fun w x => svcDelete w i n (f x)) s).nodes = s.nodes ∧
+    (l.foldl (fun w x => svcDelete w i n (f x)) s).svcs = l.foldl (fun t x => tdel t (lc n, f x)) s.svcs := by
+  induction l generalizing s with
+  | nil => simp
+  | cons c l ih =>
+    have := ih (svcDelete s i n (f c))
+    simp only [List.foldl_cons, svcDelete_nodes, svcDelete_svcs] at this ⊢
+    exact this
+
 /-- `ensureNodeTxn` refuses the write: the request carries a node ID and the name it asks for is
     defended by another registration (a rename never disputes a name with `allowClashWithoutID`,
     a new ID may take over the name of an ID-less or unhealthy registration) -/
-def nodeRefused (s : State) (n : String) (v : NodeVal) : Bool :=
+def nodeRefused (s : State) (v : NodeVal) : Bool :=
   decide (v.id ≠ "") &&
     match nodeById s.nodes v.id with
-    | some (oldName, _) => decide (oldName ≠ n) && nameConflict s.nodes s.chks n v.id false
-    | none => nameConflict s.nodes s.chks n v.id true
+    | some (oldKey, _) => decide (oldKey ≠ lc v.name) && nameConflict s.nodes s.chks (lc v.name) v.id false
+    | none => nameConflict s.nodes s.chks (lc v.name) v.id true
 
-theorem nodeSet_refused (s : State) (i : Nat) (n : String) (v : NodeVal) (h : nodeRefused s n v = true) :
-    nodeSet s i n v = .error .nodeNameConflict := by
+theorem nodeSet_refused (s : State) (i : Nat) (v : NodeVal) (h : nodeRefused s v = true) :
+    nodeSet s i v = .error .nodeNameConflict := by
   unfold nodeRefused at h
   unfold nodeSet
   by_cases hid : v.id = ""
@@ -141,12 +215,12 @@ theorem nodeSet_refused (s : State) (i : Nat) (n : String) (v : NodeVal) (h : no
   · cases hb : nodeById s.nodes v.id with
     | none => simp [hid, hb] at h; simp [hid, h]
     | some x =>
-      obtain ⟨oldName, e⟩ := x
+      obtain ⟨oldKey, e⟩ := x
       simp [hid, hb] at h
       simp [hid, h.1, h.2]
 
-theorem nodeSet_ok (s : State) (i : Nat) (n : String) (v : NodeVal) (h : nodeRefused s n v = false) :
-    ∃ s', nodeSet s i n v = .ok s' := by
+theorem nodeSet_ok (s : State) (i : Nat) (v : NodeVal) (h : nodeRefused s v = false) :
+    ∃ s', nodeSet s i v = .ok s' := by
   unfold nodeRefused at h
   unfold nodeSet
   by_cases hid : v.id = ""
@@ -156,31 +230,31 @@ theorem nodeSet_ok (s : State) (i : Nat) (n : String) (v : NodeVal) (h : nodeRef
       simp [hid, hb] at h
       exact ⟨_, by simp [hid, h]; rfl⟩
     | some x =>
-      obtain ⟨oldName, e⟩ := x
+      obtain ⟨oldKey, e⟩ := x
       simp only [hid, hb, ne_eq, not_false_eq_true, decide_true, Bool.true_and, Bool.and_eq_false_imp,
         decide_eq_true_eq] at h
-      by_cases hn : oldName = n
-      · by_cases hv : e.val = v
+      by_cases hn : oldKey = lc v.name
+      · by_cases hv : sameNode e.val v = true
         · exact ⟨s, by simp [hid, hn, hv]⟩
         · exact ⟨_, by simp [hid, hn, hv]; rfl⟩
       · have := h hn
         exact ⟨_, by simp [hid, hn, this]; rfl⟩
 
-theorem svcSet_missing (s : State) (i : Nat) (n id : String) (p : Nat) (h : tget s.nodes n = none) :
+theorem svcSet_missing (s : State) (i : Nat) (n id : String) (p : Nat) (h : tget s.nodes (lc n) = none) :
     svcSet s i n id p = .error .missingNode := by simp [svcSet, h]
 
-theorem svcSet_ok (s : State) (i : Nat) (n id : String) (p : Nat) (h : (tget s.nodes n).isSome) :
+theorem svcSet_ok (s : State) (i : Nat) (n id : String) (p : Nat) (h : (tget s.nodes (lc n)).isSome) :
     ∃ s', svcSet s i n id p = .ok s' := by
   obtain ⟨e, he⟩ := Option.isSome_iff_exists.mp h
-  cases hs : tget s.svcs (n, id) with
+  cases hs : tget s.svcs (lc n, id) with
   | none => exact ⟨_, by simp [svcSet, he, hs]; rfl⟩
   | some x => by_cases hv : x.val = p
-              · exact ⟨s, by simp [svcSet, he, hs, hv]⟩
+              · exact ⟨_, by simp [svcSet, he, hs, hv]; rfl⟩
               · exact ⟨_, by simp [svcSet, he, hs, hv]; rfl⟩
 
 /-- the prerequisites `ensureCheckTxn` insists on: the node, and the service a check is bound to -/
 def ChkAdm (s : State) (n : String) (v : ChkVal) : Prop :=
-  (tget s.nodes n).isSome ∧ (v.svcId = "" ∨ (tget s.svcs (n, v.svcId)).isSome)
+  (tget s.nodes (lc n)).isSome ∧ (v.svcId = "" ∨ (tget s.svcs (lc n, v.svcId)).isSome)
 
 instance (s : State) (n : String) (v : ChkVal) : Decidable (ChkAdm s n v) := by unfold ChkAdm; infer_instance
 
@@ -188,12 +262,12 @@ theorem chkSet_ok (s : State) (i : Nat) (n id : String) (v : ChkVal) (h : ChkAdm
     ∃ s', chkSet s i n id v = .ok s' := by
   obtain ⟨hn, hs⟩ := h
   obtain ⟨e, he⟩ := Option.isSome_iff_exists.mp hn
-  have hc : ¬ (v.svcId ≠ "" ∧ tget s.svcs (n, v.svcId) = none) := by
+  have hc : ¬ (v.svcId ≠ "" ∧ tget s.svcs (lc n, v.svcId) = none) := by
     intro ⟨h1, h2⟩
     cases hs with
     | inl h => exact h1 h
     | inr h => simp [h2] at h
-  cases hx : tget s.chks (n, id) with
+  cases hx : tget s.chks (lc n, id) with
   | none => exact ⟨_, by simp only [chkSet, he, hc, if_false, hx]; rfl⟩
   | some x => by_cases hv : x.val = v
               · exact ⟨s, by simp only [chkSet, he, hc, if_false, hx, hv, if_true]⟩
@@ -202,10 +276,10 @@ theorem chkSet_ok (s : State) (i : Nat) (n id : String) (v : ChkVal) (h : ChkAdm
 theorem chkSet_refused (s : State) (i : Nat) (n id : String) (v : ChkVal) (h : ¬ ChkAdm s n v) :
     ∃ e, chkSet s i n id v = .error e := by
   unfold ChkAdm at h
-  cases hn : tget s.nodes n with
+  cases hn : tget s.nodes (lc n) with
   | none => exact ⟨.missingNode, by simp [chkSet, hn]⟩
   | some e =>
-    have : v.svcId ≠ "" ∧ tget s.svcs (n, v.svcId) = none := by
+    have : v.svcId ≠ "" ∧ tget s.svcs (lc n, v.svcId) = none := by
       simp [hn] at h
       exact ⟨h.1, by simpa using h.2⟩
     exact ⟨.missingService, by simp only [chkSet, hn, this, and_self, if_true, ne_eq, not_false_eq_true]⟩
